@@ -18,8 +18,28 @@
 //!   well-known spelling itself (SDP tokens are compared case-sensitively by the API: `Ext("x")`
 //!   and the built-in variant are different values);
 //! * `Other` protocol tokens follow RFC 8866 `proto = token *("/" token)`;
-//! * FQDNs: 1..4 non-empty labels of `[A-Za-z0-9_-]` joined by `.`, never text that is itself an
-//!   IPv4/IPv6 literal (DESIGN 1.2: "host names are not dotted quads");
+//! * host names (`Ip4Fqdn` / `Ip6Fqdn` / candidate `Fqdn`): 1..4 non-empty labels of `[A-Za-z0-9_-]`
+//!   joined by `.`, and NEAR MISSES OF ADDRESS LITERALS in the same character class (`near_ip4_literal`:
+//!   an octet > 255, three / five numeric labels, a leading zero, a trailing dot, one 32-bit number,
+//!   a `0x` octet, a letter behind an octet). The text under a tag is never a literal OF THAT TAG'S OWN
+//!   FAMILY (DESIGN 1.2 "host names are not dotted quads": `IN IP4 192.0.2.1` is the value
+//!   `IP4(192.0.2.1)`, the API cannot hold it as `IP4FQDN`), and a candidate `Fqdn` is never a literal of
+//!   either family. What the API CAN hold — and RFC 8866 allows: `unicast-address = IP4-address /
+//!   IP6-address / FQDN / extn-addr`, `FQDN = 4*(alpha-numeric / "-" / ".")` independent of the
+//!   address type — is generated: `Ip6Fqdn` whose text is a dotted quad (`IN IP6 192.0.2.1`; the tag is
+//!   IP6, the text is no IPv6 literal, so the only value for it is `IP6FQDN`), and, for the two address
+//!   kinds whose host characters include `:` (`Ip6Fqdn`, candidate `Fqdn`), near misses of IPv6 literals
+//!   (`near_ip6_literal`: seven / nine groups, a five-digit group, a non-hex letter, two `::`, a mapped
+//!   tail with an octet > 255) — `extn-addr = non-ws-string`;
+//! * REPEATED LIST ELEMENTS (`MediaRepeat`, `SessionRepeat`): every list of the public structs is a
+//!   `Vec`, "0..n of each attribute" includes n equal ones. With weight ~1/3 a media section gets one
+//!   element of one of its non-empty lists (fmts, bandwidth, rtpmaps, fmtps, candidates, crypto lines,
+//!   unknown attributes, the keys / session parameters of a crypto line, the extension pairs of a
+//!   candidate) inserted a second time at any position (adjacent or not), either verbatim or — for the
+//!   keyed lists — as a NEAR duplicate (a candidate that differs from the original in exactly one of its
+//!   ten fields; an rtpmap / fmtp / crypto / bandwidth / attribute that shares only its key with another
+//!   element). At session level the same for bandwidth, ice-options, unknown attributes, whole media
+//!   sections (an equal section at any position) and one candidate copied into another section;
 //! * connection: `num` only together with `ttl` for IP4 (ezk's own unit test
 //!   `connection_print_num_without_ttl` documents that `num` without `ttl` is not printed) and never a
 //!   `ttl` for IP6 (RFC 8866 5.7);
@@ -452,6 +472,114 @@ fn hostname() -> BoxedStrategy<String> {
         .boxed()
 }
 
+/// Texts of `[A-Za-z0-9.x-]` that resemble an IPv4 literal and are none (std's strict parser — not
+/// part of the code under test — is the judge; whatever it accepts gets a letter appended).
+fn near_ip4_literal() -> BoxedStrategy<String> {
+    (
+        ip4(),
+        0u8..9,
+        any::<u16>(),
+        prop::sample::select(vec![256u32, 260, 299, 300, 999, 1000, 65536, 4294967295]),
+    )
+        .prop_map(|(b, mode, sel, big)| {
+            use crate::engine::pick_idx;
+            let mut labels: Vec<String> = b.iter().map(|o| o.to_string()).collect();
+            let i = pick_idx(sel, 4);
+            let mut tail = "";
+            match mode {
+                // an octet out of range
+                0 => labels[i] = big.to_string(),
+                // three / five numeric labels
+                1 => {
+                    labels.pop();
+                }
+                2 => labels.push((sel % 256).to_string()),
+                // a leading zero (octal in inet_aton, rejected by RFC 6943 strict parsers)
+                3 => labels[i] = format!("0{}", labels[i]),
+                // rooted
+                4 => tail = ".",
+                // a letter behind an octet
+                5 => labels[i].push(if sel & 1 == 0 { 'a' } else { 'X' }),
+                // the address as one 32-bit number
+                6 => labels = vec![u32::from_be_bytes(b).to_string()],
+                // inet_aton hex octet
+                7 => labels[i] = format!("0x{:x}", b[i]),
+                // an empty label inside
+                _ => labels[i] = String::new(),
+            }
+            let mut s = labels.join(".");
+            s.push_str(tail);
+            if s.is_empty() || is_ip_literal(&s) {
+                s.push('x');
+            }
+            s
+        })
+        .boxed()
+}
+
+/// Texts of `[0-9a-fg.:]` that resemble an IPv6 literal and are none
+fn near_ip6_literal() -> BoxedStrategy<String> {
+    (ip6(), 0u8..7, any::<u16>())
+        .prop_map(|(a, mode, sel)| {
+            use crate::engine::pick_idx;
+            let mut groups: Vec<String> = a.iter().map(|g| format!("{g:x}")).collect();
+            let i = pick_idx(sel, 8);
+            let s = match mode {
+                // nine / seven groups
+                0 => {
+                    groups.push(format!("{:x}", sel));
+                    groups.join(":")
+                }
+                1 => {
+                    groups.pop();
+                    groups.join(":")
+                }
+                // a group of five hex digits
+                2 => {
+                    groups[i] = format!("1{:04x}", a[i]);
+                    groups.join(":")
+                }
+                // a letter that is no hex digit
+                3 => {
+                    groups[i] = format!("g{:x}", a[i] & 0xfff);
+                    groups.join(":")
+                }
+                // two compressions
+                4 => format!("{}::{}::{}", groups[0], groups[1], groups[2]),
+                // three colons
+                5 => format!(":::{}", groups[7]),
+                // IPv4-mapped tail with an octet out of range
+                _ => format!("::ffff:{}.{}.{}.256", a[0] & 0xff, a[1] & 0xff, a[2] & 0xff),
+            };
+            if is_ip_literal(&s) {
+                format!("{s}x")
+            } else {
+                s
+            }
+        })
+        .boxed()
+}
+
+fn ip4_literal_text() -> BoxedStrategy<String> {
+    ip4().prop_map(|b| Ipv4Addr::new(b[0], b[1], b[2], b[3]).to_string()).boxed()
+}
+
+/// what a host name held in an FQDN variant looks like (class labels / non-trivial accounting)
+pub fn host_shape(h: &str) -> Option<&'static str> {
+    if h.parse::<Ipv4Addr>().is_ok() {
+        Some("ip4-literal")
+    } else if h.contains(':') {
+        Some("near-ip6-literal")
+    } else if h.chars().next().map_or(false, |c| c.is_ascii_digit())
+        && h.chars().all(|c| c.is_ascii_alphanumeric() || c == '.')
+        && h.chars().filter(|c| c.is_ascii_digit()).count() * 2 > h.len()
+    {
+        Some("near-ip4-literal")
+    } else {
+        None
+    }
+}
+
 fn ip4() -> BoxedStrategy<[u8; 4]> {
     prop_oneof![
         3 => any::<[u8; 4]>(),
@@ -484,8 +612,11 @@ pub fn tagged() -> BoxedStrategy<TaggedC> {
     prop_oneof![
         3 => ip4().prop_map(TaggedC::Ip4),
         2 => ip6().prop_map(TaggedC::Ip6),
-        1 => hostname().prop_map(TaggedC::Ip4Fqdn),
-        1 => hostname().prop_map(TaggedC::Ip6Fqdn),
+        // never an IPv4 literal (that is the value `Ip4`), `:` is no host character under IP4
+        1 => prop_oneof![3 => hostname(), 1 => near_ip4_literal()].prop_map(TaggedC::Ip4Fqdn),
+        // never an IPv6 literal (that is the value `Ip6`); a dotted quad under the IP6 tag is a name
+        2 => prop_oneof![4 => hostname(), 2 => near_ip4_literal(), 3 => ip4_literal_text(), 1 => near_ip6_literal()]
+            .prop_map(TaggedC::Ip6Fqdn),
     ]
     .boxed()
 }
@@ -494,7 +625,8 @@ fn untagged() -> BoxedStrategy<UntaggedC> {
     prop_oneof![
         3 => ip4().prop_map(UntaggedC::V4),
         2 => ip6().prop_map(UntaggedC::V6),
-        2 => hostname().prop_map(UntaggedC::Fqdn),
+        // never a literal of either family (that is the value `V4` / `V6`)
+        2 => prop_oneof![6 => hostname(), 2 => near_ip4_literal(), 1 => near_ip6_literal()].prop_map(UntaggedC::Fqdn),
     ]
     .boxed()
 }
@@ -847,7 +979,167 @@ fn rtcp() -> BoxedStrategy<RtcpC> {
         .boxed()
 }
 
+/// One repetition inside a media section: an element of one of the section's non-empty lists is
+/// inserted a second time. Selectors are mapped with `pick_idx`; an op that finds no non-empty list
+/// leaves the section as it is.
+#[derive(Clone, Debug)]
+pub struct MediaRepeat {
+    /// which of the non-empty lists
+    pub list: u16,
+    /// which element is copied, where the copy is inserted (0..=len: adjacent or not)
+    pub from: u16,
+    pub to: u16,
+    /// verbatim copy, or a near duplicate (see `repeat_in_media`)
+    pub exact: bool,
+    /// near duplicate: which element the differing part is taken from / which candidate field differs
+    pub other: u16,
+    pub field: u8,
+    /// near duplicate of a candidate: the source of the one differing field
+    pub spare: CandC,
+}
+
+fn insert_copy<T: Clone>(v: &mut Vec<T>, from: u16, to: u16, near: impl FnOnce(&mut T, &[T])) {
+    use crate::engine::pick_idx;
+    if v.is_empty() {
+        return;
+    }
+    let mut x = v[pick_idx(from, v.len())].clone();
+    near(&mut x, v);
+    let at = pick_idx(to, v.len() + 1);
+    v.insert(at, x);
+}
+
+/// the copy of a candidate with exactly one field (0..10) taken from `src`
+pub fn splice_candidate_field(c: &mut CandC, src: &CandC, field: u8) {
+    match field % 10 {
+        0 => c.foundation = src.foundation.clone(),
+        1 => c.component = src.component,
+        2 => c.transport = src.transport.clone(),
+        3 => c.priority = src.priority,
+        4 => c.address = src.address.clone(),
+        5 => c.port = src.port,
+        6 => c.typ = src.typ.clone(),
+        7 => c.rel_addr = src.rel_addr.clone(),
+        8 => c.rel_port = src.rel_port,
+        _ => c.unknown = src.unknown.clone(),
+    }
+}
+
+pub fn repeat_in_media(m: &mut MediaC, op: &MediaRepeat) {
+    use crate::engine::pick_idx;
+    // (list id, non-empty?)
+    let has_keys = m.crypto.iter().any(|c| !c.keys.is_empty());
+    let has_params = m.crypto.iter().any(|c| !c.params.is_empty());
+    let has_pairs = m.candidates.iter().any(|c| !c.unknown.is_empty());
+    let lists: Vec<u8> = [
+        (0u8, !m.fmts.is_empty()),
+        (1, !m.bandwidth.is_empty()),
+        (2, !m.rtpmaps.is_empty()),
+        (3, !m.fmtps.is_empty()),
+        (4, !m.candidates.is_empty()),
+        // candidates twice: the list whose elements have the most fields
+        (4, !m.candidates.is_empty()),
+        (5, !m.crypto.is_empty()),
+        (6, !m.attributes.is_empty()),
+        (7, has_keys),
+        (8, has_params),
+        (9, has_pairs),
+    ]
+    .into_iter()
+    .filter(|(_, ok)| *ok)
+    .map(|(id, _)| id)
+    .collect();
+    if lists.is_empty() {
+        return;
+    }
+    let (exact, other) = (op.exact, op.other);
+    match lists[pick_idx(op.list, lists.len())] {
+        0 => insert_copy(&mut m.fmts, op.from, op.to, |_, _| {}),
+        // near duplicates of keyed elements: the copy keeps its own content and takes the KEY of another
+        // element of the list (same key, different content — with a single element it stays verbatim)
+        1 => insert_copy(&mut m.bandwidth, op.from, op.to, |x, all| {
+            if !exact {
+                x.type_ = all[pick_idx(other, all.len())].type_.clone();
+            }
+        }),
+        2 => insert_copy(&mut m.rtpmaps, op.from, op.to, |x, all| {
+            if !exact {
+                x.payload = all[pick_idx(other, all.len())].payload;
+            }
+        }),
+        3 => insert_copy(&mut m.fmtps, op.from, op.to, |x, all| {
+            if !exact {
+                x.format = all[pick_idx(other, all.len())].format;
+            }
+        }),
+        4 => insert_copy(&mut m.candidates, op.from, op.to, |x, _| {
+            if !exact {
+                splice_candidate_field(x, &op.spare, op.field);
+            }
+        }),
+        5 => insert_copy(&mut m.crypto, op.from, op.to, |x, all| {
+            if !exact {
+                x.tag = all[pick_idx(other, all.len())].tag;
+            }
+        }),
+        6 => insert_copy(&mut m.attributes, op.from, op.to, |x, all| {
+            if !exact {
+                x.name = all[pick_idx(other, all.len())].name.clone();
+            }
+        }),
+        7 => {
+            let idx: Vec<usize> = (0..m.crypto.len()).filter(|i| !m.crypto[*i].keys.is_empty()).collect();
+            let c = &mut m.crypto[idx[pick_idx(other, idx.len())]];
+            insert_copy(&mut c.keys, op.from, op.to, |_, _| {});
+        }
+        8 => {
+            let idx: Vec<usize> = (0..m.crypto.len()).filter(|i| !m.crypto[*i].params.is_empty()).collect();
+            let c = &mut m.crypto[idx[pick_idx(other, idx.len())]];
+            insert_copy(&mut c.params, op.from, op.to, |_, _| {});
+        }
+        _ => {
+            let idx: Vec<usize> = (0..m.candidates.len()).filter(|i| !m.candidates[*i].unknown.is_empty()).collect();
+            let c = &mut m.candidates[idx[pick_idx(other, idx.len())]];
+            insert_copy(&mut c.unknown, op.from, op.to, |_, _| {});
+        }
+    }
+}
+
+fn media_repeat() -> BoxedStrategy<MediaRepeat> {
+    (
+        any::<u16>(),
+        any::<u16>(),
+        any::<u16>(),
+        prop::bool::weighted(0.6),
+        any::<u16>(),
+        0u8..10,
+        candidate(),
+    )
+        .prop_map(|(list, from, to, exact, other, field, spare)| MediaRepeat {
+            list,
+            from,
+            to,
+            exact,
+            other,
+            field,
+            spare,
+        })
+        .boxed()
+}
+
+/// a media section, with weight ~1/3 holding one repeated list element
 pub fn media() -> BoxedStrategy<MediaC> {
+    (media_plain(), option::weighted(0.35, media_repeat()))
+        .prop_map(|(mut m, op)| {
+            if let Some(op) = &op {
+                repeat_in_media(&mut m, op);
+            }
+            m
+        })
+        .boxed()
+}
+
+fn media_plain() -> BoxedStrategy<MediaC> {
     (
         (
             media_type(),
@@ -905,7 +1197,90 @@ pub fn crypto_line() -> BoxedStrategy<CryptoC> {
     crypto()
 }
 
+/// One repetition at session level
+#[derive(Clone, Debug)]
+pub struct SessionRepeat {
+    pub list: u16,
+    pub from: u16,
+    pub to: u16,
+    pub exact: bool,
+    pub other: u16,
+}
+
+pub fn repeat_in_session(c: &mut SdpCase, op: &SessionRepeat) {
+    use crate::engine::pick_idx;
+    let with_cands: Vec<usize> = (0..c.media.len()).filter(|i| !c.media[*i].candidates.is_empty()).collect();
+    let lists: Vec<u8> = [
+        (0u8, !c.bandwidth.is_empty()),
+        (1, !c.ice_options.is_empty()),
+        (2, !c.attributes.is_empty()),
+        // an equal media section (weight 2)
+        (3, !c.media.is_empty()),
+        (3, !c.media.is_empty()),
+        // one candidate of a section copied into another (or the same) section (weight 2)
+        (4, !with_cands.is_empty() && c.media.len() >= 2),
+        (4, !with_cands.is_empty() && c.media.len() >= 2),
+    ]
+    .into_iter()
+    .filter(|(_, ok)| *ok)
+    .map(|(id, _)| id)
+    .collect();
+    if lists.is_empty() {
+        return;
+    }
+    let (exact, other) = (op.exact, op.other);
+    match lists[pick_idx(op.list, lists.len())] {
+        0 => insert_copy(&mut c.bandwidth, op.from, op.to, |x, all| {
+            if !exact {
+                x.type_ = all[pick_idx(other, all.len())].type_.clone();
+            }
+        }),
+        1 => insert_copy(&mut c.ice_options, op.from, op.to, |_, _| {}),
+        2 => insert_copy(&mut c.attributes, op.from, op.to, |x, all| {
+            if !exact {
+                x.name = all[pick_idx(other, all.len())].name.clone();
+            }
+        }),
+        3 => insert_copy(&mut c.media, op.from, op.to, |_, _| {}),
+        _ => {
+            let src = with_cands[pick_idx(other, with_cands.len())];
+            let cand = {
+                let l = &c.media[src].candidates;
+                l[pick_idx(op.from, l.len())].clone()
+            };
+            let dst = pick_idx(op.to, c.media.len());
+            let l = &mut c.media[dst].candidates;
+            // position inside the destination list derived from the same selector, other end first
+            let at = pick_idx(op.to.rotate_left(7), l.len() + 1);
+            l.insert(at, cand);
+        }
+    }
+}
+
+fn session_repeat() -> BoxedStrategy<SessionRepeat> {
+    (any::<u16>(), any::<u16>(), any::<u16>(), prop::bool::weighted(0.6), any::<u16>())
+        .prop_map(|(list, from, to, exact, other)| SessionRepeat {
+            list,
+            from,
+            to,
+            exact,
+            other,
+        })
+        .boxed()
+}
+
 fn session_with(media: BoxedStrategy<Vec<MediaC>>) -> BoxedStrategy<SdpCase> {
+    (session_plain(media), option::weighted(0.3, session_repeat()))
+        .prop_map(|(mut c, op)| {
+            if let Some(op) = &op {
+                repeat_in_session(&mut c, op);
+            }
+            c
+        })
+        .boxed()
+}
+
+fn session_plain(media: BoxedStrategy<Vec<MediaC>>) -> BoxedStrategy<SdpCase> {
     (
         (nonws(), nonws(), nonws(), tagged()),
         line_text(24),
@@ -949,12 +1324,12 @@ fn session_with(media: BoxedStrategy<Vec<MediaC>>) -> BoxedStrategy<SdpCase> {
         .boxed()
 }
 
-/// `SessionDescription` values with 0..4 media sections
+/// `SessionDescription` values with 0..4 media sections (one more when a section is repeated)
 pub fn session() -> BoxedStrategy<SdpCase> {
     session_with(vec(media(), 0..=4).boxed())
 }
 
-/// `SessionDescription` values with 1..3 media sections (for metamorphic token checks)
+/// `SessionDescription` values with 1..3 (+1 repeated) media sections (for metamorphic token checks)
 pub fn session_with_media() -> BoxedStrategy<SdpCase> {
     session_with(vec(media(), 1..=3).boxed())
 }
